@@ -1,8 +1,9 @@
 SPECIFICATION Spec
-CONSTANTS MaxBr = 2 MaxN = 4
+CONSTANTS MaxBr = 2 MaxN = 4 MaxRuns = 2
   Kinds <- KindsQuick
   BufSizes <- BufQuick
 INVARIANT OpEqDen
+INVARIANT AllActiveAtStart
 INVARIANT OutIsPrefix
 INVARIANT BufBound
 INVARIANT SrcOnlyOnEmpty
